@@ -448,6 +448,14 @@ func ParseContractFile(path, pkg string) (*ContractFile, error) {
 				body := strings.TrimSpace(rest[k+1:])
 				as := &AtSpec{Anchor: anchor}
 				switch {
+				case strings.HasPrefix(body, "havoc "):
+					// at <anchor>: havoc p.a, p.b -- other threads may change these locations here (a blocking
+					// call that releases a mutex); follow it with an `assume` of the monitor invariant
+					as.Kind = "havoc"
+					as.Var = strings.TrimSpace(strings.TrimPrefix(body, "havoc"))
+					as.C = &Clause{Label: anchor, Src: body}
+					cur.Ats = append(cur.Ats, as)
+					continue
 				case strings.HasPrefix(body, "assert"):
 					as.Kind = "assert"
 					body = strings.TrimSpace(strings.TrimPrefix(body, "assert"))
